@@ -29,7 +29,7 @@ P = {
  "C16": ("Full statement proved: G711/G722 split (concatenation, all but the last fragment exactly MTU bytes), Opus pass-through as an owned copy, OpusPacket accept/reject, partition head/tail.", ""),
  "C17": ("Full statement proved for the five codecs: exact layouts on the in-range domains, errors outside, decode of every sufficient input for every previous receiver value, short input rejected, never Panic, round trip.", ""),
  "C18": ("Full statement proved with Go's 64-bit arithmetic written out: capture time within 1 ns over 1970-2036, offset within 1 ns with sign below 2^31 s, Estimate within one 2^-18 s quantum (+1 ns) for delays in [0, 64 s - 2^-18 s) across wraps.", "The time.Time <-> UnixNano boundary is Go's standard library and is trusted."),
- "C19": ("Proved: C19_layout (Marshal = spec byte layout, no surplus byte), C19_roundtrip into any used receiver, C19_rejects (iff), C19_total. Partial: bitrates >= 2^56 do not survive ReadLeb128's accumulator (C19_roundtrip_refuted_above_2_56; the bound is in the statement of the proved theorem; no real bitrate reaches it).", ""),
+ "C19": ("Proved: C19_layout (Marshal = spec byte layout, no surplus byte), C19_roundtrip into any used receiver, C19_rejects (iff), C19_total. All non-negative int bitrates (below 2^63) since the repair of D19 (ReadLeb128 reads back every uint WriteToLeb128 writes: C19_leb128_inverse below 2^64).", ""),
  "C20": ("Full statement proved over an explicit heap model: clone equal (incl. padding size, PayloadOffset), all blocks fresh, and every store/alloc sequence applied to one side leaves the other side's reads unchanged (frame theorem).", "That the implementation allocates where the model says 'fresh' is observed per case (address overlap, mutation of either side incl. SetExtension on both), not proved about Go's allocator."),
 }
 
@@ -50,7 +50,7 @@ def main():
             "kind_free_text": "Coq 8.16.1 development (coq/: Base, Model, Spec, Proofs, Properties, Extract), extracted OCaml model runner (runner/driver.ml + extracted model), Go differential harness with property oracles (harness/), Python orchestrator (check), mutation self-test (lib/selftest.py, seeded/)",
         }],
         "checks": [],
-        "notes": "Every check: (1) full make of the Coq development + Print Assumptions under every theorem of Properties/<id>.v + lint (no Admitted/admit/Axiom/Parameter/...); (2) harness rebuilt against /repo with -tags verif; (3) correspondence: corpus + generated cases run on the implementation and on the extracted model, observables compared line by line; (4) the property's own oracle on the implementation; (5) verdict per DESIGN.md section 5 and evidence. Thorough adds a clean rebuild + coqchk -o over all Properties modules (shared stamp), 50-200x the cases, and an in-Coq vm_compute re-evaluation of a 300-case sub-corpus. known_findings.json lists 2 open findings (C03, C14; both pinned by upstream tests) and 29 'fixed:' records.",
+        "notes": "Every check: (1) full make of the Coq development + Print Assumptions under every theorem of Properties/<id>.v + lint (no Admitted/admit/Axiom/Parameter/...); (2) harness rebuilt against /repo with -tags verif; (3) correspondence: corpus + generated cases run on the implementation and on the extracted model, observables compared line by line; (4) the property's own oracle on the implementation; (5) verdict per DESIGN.md section 5 and evidence. Thorough adds a clean rebuild + coqchk -o over all Properties modules (shared stamp), 50-200x the cases, and an in-Coq vm_compute re-evaluation of a 300-case sub-corpus. known_findings.json lists 2 open findings (C03, C14; both pinned by upstream tests) and 30 'fixed:' records.",
         "not_applicable": [],
     }
     for pid in sorted(P):
